@@ -142,13 +142,28 @@ func roleTypeMatch(t types.Type, want string) bool {
 	if typeStr(t) == want {
 		return true
 	}
-	if n, ok := types.Unalias(t).(*types.Named); ok {
-		switch n.Underlying().(type) {
+	return typeStr(plainContainers(t)) == want
+}
+
+// plainContainers: the type with every defined map / slice / channel type (type idSet map[uint32]struct{}),
+// also nested inside other containers (map[uint32]idSet), replaced by the container it is defined as.
+func plainContainers(t types.Type) types.Type {
+	switch v := types.Unalias(t).(type) {
+	case *types.Named:
+		switch v.Underlying().(type) {
 		case *types.Map, *types.Slice, *types.Chan:
-			return typeStr(n.Underlying()) == want
+			return plainContainers(v.Underlying())
 		}
+	case *types.Map:
+		return types.NewMap(plainContainers(v.Key()), plainContainers(v.Elem()))
+	case *types.Slice:
+		return types.NewSlice(plainContainers(v.Elem()))
+	case *types.Chan:
+		return types.NewChan(v.Dir(), plainContainers(v.Elem()))
+	case *types.Pointer:
+		return types.NewPointer(plainContainers(v.Elem()))
 	}
-	return false
+	return t
 }
 
 // unaliasDeep: the type with every alias (type idSet = map[uint32]struct{}) replaced by what it stands for,
